@@ -3,7 +3,7 @@
 //verif:assume diamonds are driven the way the CLI drives them, through the real code end to end: CreateDiamond; split add = NewSplit + CreateSplit + Split.Upload (real cafs writer); commit = GetDiamond + NewDiamond(clone) + Commit; cancel = NewDiamond + Cancel. Stores are the in-memory model, BLAKE2b an injective UF, yaml.v2 round-trips opaque documents, ksuid.NewRandom yields fresh increasing ids
 //verif:assume programs: every sequence of 3 (thorough: 4) operations over {add split s1 with files v1, add split s1 again with files v2, add split s2, commit, cancel}; crash model for VerifC12Crash: fail-stop stores at every mutating store call of a split upload or of a commit, landed or not, then a retry; interleavings for VerifC12Race: two concurrent operations (commit/commit, commit/cancel, cancel/cancel) with a preemption point before every mutating call (Put, Delete) on the metadata stores - every check-then-write window is opened - and at most 2 context switches (thorough: 3)
 //verif:cover VerifC12Programs committed refused-after-commit refused-after-cancel rerun-of-done-split-refused commit-without-split-refused
-//verif:cover VerifC12Crash split-crashed-then-rerun commit-crashed-then-retried
+//verif:cover VerifC12Crash split-crashed-then-rerun commit-crashed-then-retried replay-of-running-split-after-termination commit-retried-on-the-same-object
 //verif:cover VerifC12Race two-commits commit-and-cancel switched
 package core
 
@@ -168,6 +168,38 @@ func VerifC12Crash() {
 		vCover("split-crashed-then-rerun")
 		_, firstRunCompleted := w.vmeta.data[model.GetArchivePathToFinalSplit("r", vDiamond, "s1")]
 		vAssert(firstRunCompleted || err1 != nil, "interrupted-split-upload-reports-failure")
+		if !firstRunCompleted && vChoose("terminateFirst", 3) > 0 {
+			// the diamond is committed (with split s2) or canceled while s1 is still recorded as running:
+			// replaying s1 afterwards must be refused like any new split
+			vCover("replay-of-running-split-after-termination")
+			vNextSecond()
+			vAssert(w.splitAdd("s2", vFilesS2, []string{"b", "c"}) == nil, "second-split")
+			vNextSecond()
+			canceled := vChoose("terminator", 2) == 1
+			id := ""
+			if canceled {
+				vAssert(w.cancel() == nil, "cancel")
+			} else {
+				var e error
+				id, e = w.commit(model.EnableConflicts)
+				vAssert(e == nil, "commit")
+			}
+			before := vSnapshot(w.vmeta)
+			vNextSecond()
+			vAssert(w.splitAdd("s1", vFilesV2, []string{"a"}) != nil, "split-replay-refused-once-diamond-is-done-or-canceled")
+			_, done := w.vmeta.data[model.GetArchivePathToFinalSplit("r", vDiamond, "s1")]
+			vAssert(!done, "no-split-completes-on-a-terminated-diamond")
+			vAssert(len(w.vmeta.data) == len(before), "refused-replay-writes-no-diamond-metadata")
+			ids := w.bundleIDs()
+			if canceled {
+				vAssert(len(ids) == 0, "canceled-diamond-has-no-bundle")
+			} else {
+				vAssert(len(ids) == 1 && ids[0] == id, "a-diamond-produces-exactly-one-bundle")
+				got, e := w.entries(id)
+				vAssert(e == nil && vSameKeys(got, map[string]bool{"b": true, "c": true}), "bundle-holds-only-the-splits-complete-at-commit")
+			}
+			return
+		}
 		vNextSecond()
 		err2 := w.splitAdd("s1", vFilesV2, []string{"a"})
 		if firstRunCompleted {
@@ -202,6 +234,27 @@ func VerifC12Crash() {
 	// the commit dies; it is retried (a new process: new Diamond object)
 	vNextSecond()
 	vAssert(w.splitAdd("s1", vFilesV1, []string{"a", "c"}) == nil, "split")
+	if vChoose("sameObject", 2) == 1 {
+		// a transient store fault during the commit, then Commit() is called again on the same Diamond value
+		vCover("commit-retried-on-the-same-object")
+		cr.transient, cr.landed = true, false
+		cr.install()
+		vNextSecond()
+		d, e := w.committer(model.EnableConflicts)
+		vAssert(e == nil, "committer")
+		err1 := d.Commit()
+		cr.revive()
+		vAssume(cr.crashed)
+		vAssert(err1 != nil, "commit-hit-by-a-store-fault-reports-failure")
+		afterFault := w.bundleIDs()
+		_ = d.Commit()
+		ids := w.bundleIDs()
+		vAssertR(len(ids) <= 1, "a-diamond-produces-at-most-one-bundle", "C12-F1", false)
+		if len(afterFault) == 1 {
+			vAssert(len(ids) == 1 && ids[0] == afterFault[0], "retry-on-the-same-object-does-not-create-another-bundle")
+		}
+		return
+	}
 	cr.install()
 	vNextSecond()
 	_, err1 := w.commit(model.EnableConflicts)
